@@ -40,6 +40,13 @@ func MutexTryLock(site int32, m *sync.Mutex) bool {
 
 func MutexUnlock(site int32, m *sync.Mutex) {
 	s := cur
+	if s != nil && s.tearing {
+		// a deferred unlock of a task that was torn down while it did not hold the lock (inside
+		// Cond.Wait, or after another task's deferred unlock released it): never fatal
+		m.TryLock()
+		m.Unlock()
+		return
+	}
 	if s != nil && s.cfg.HB && !s.tearing {
 		if t := s.caller(); t != nil {
 			s.hbRelease(t, s.mtxVC, uintptr(unsafe.Pointer(m)))
@@ -92,6 +99,11 @@ func RWTryRLock(site int32, m *sync.RWMutex) bool {
 
 func RWUnlock(site int32, m *sync.RWMutex) {
 	s := cur
+	if s != nil && s.tearing {
+		m.TryLock()
+		m.Unlock()
+		return
+	}
 	if s != nil && s.cfg.HB && !s.tearing {
 		if t := s.caller(); t != nil {
 			s.hbRelease(t, s.mtxVC, uintptr(unsafe.Pointer(m)))
@@ -171,6 +183,9 @@ func OnceDo(site int32, o *sync.Once, f func()) {
 	}
 	s.onces[o] = 1
 	defer func() {
+		if s.tearing {
+			return
+		}
 		s.onces[o] = 2
 		if s.cfg.HB && !s.tearing {
 			s.onceVC[o] = vcCopy(t.vc)
@@ -232,12 +247,6 @@ func CondWait(site int32, c *sync.Cond) {
 	if m := s.parkRaw(t, gate{kind: gWait, site: site, cond: func() bool { return w.signalled }}); m.poison {
 		// teardown while waiting: Wait returns with the lock held in Go, and callers defer the
 		// unlock - take the lock (if it is free) before this goroutine ends
-		switch l := c.L.(type) {
-		case *sync.Mutex:
-			l.TryLock()
-		case *sync.RWMutex:
-			l.TryLock()
-		}
 		runtime.Goexit()
 	}
 	if s.cfg.HB && w.vc != nil {
